@@ -1238,6 +1238,11 @@ init_strtab(kdump_ctx_t *ctx, unsigned strtabidx)
 				      ps->file_offset);
 	}
 
+	/* Section names are used as C strings. */
+	if (ps->size && edp->strtab[ps->size - 1])
+		return set_error(ctx, KDUMP_ERR_CORRUPT,
+				 "ELF string table is not NUL-terminated");
+
 	return KDUMP_OK;
 }
 
